@@ -60,7 +60,8 @@ fn main() {
             let name = args.get(1).cloned().unwrap_or_default();
             let n: u64 = args.get(2).and_then(|s| s.parse().ok()).unwrap_or(1000);
             let tier = if args.get(3).map(String::as_str) == Some("thorough") { Tier::Thorough } else { Tier::Quick };
-            hashes(&name, n, tier)
+            let base = if args.iter().any(|a| a == "logging") { crate::core::LOG_BIT } else { 0 };
+            hashes(&name, n, tier, base)
         }
         Some("list") => {
             for p in props::all() {
@@ -79,14 +80,14 @@ fn main() {
     std::process::exit(code);
 }
 
-fn hashes(name: &str, n: u64, tier: Tier) -> i32 {
+fn hashes(name: &str, n: u64, tier: Tier, base: u64) -> i32 {
     let all = scen::all();
     let Some(scn) = all.iter().find(|s| s.name() == name) else {
         eprintln!("unknown scenario {name}");
         return 2;
     };
     let seed = seed_from_env();
-    let r = run_batch(scn.as_ref(), tier, seed, 0, n, workers(), true, 1e9);
+    let r = run_batch(scn.as_ref(), tier, seed, base, n, workers(), true, 1e9);
     for (i, h) in &r.stats.hashes {
         println!("{i} {h:016x}");
     }
